@@ -4,9 +4,9 @@
     is run through the boolean tests on every check), the merge loop terminates, concatenates consecutive
     groups without reordering, ends with all consecutive groups robustly linked, and every optimal consensus
     ranks each group strictly before the later ones (strict exchange + transitivity through non-empty
-    groups).  Not a theorem in this version: [consistent_with] = the "respects" relation (decided by the
-    correspondence on ALL pairs over 3-4 elements; reserved name C07_consistent_with_iff). *)
-From Corankco Require Import Prelude Scheme Rank KemenySpec CostTable OptTheory Partition PartitionProof.
+    groups).  [OrderedPartition.consistent_with] (model, after the repair of F8) is proved total and equal to
+    that relation ([C07_consistent_with_iff]); model = code on ALL pairs over 3-4 elements per run. *)
+From Corankco Require Import Prelude Scheme Rank KemenySpec CostTable OptTheory Partition PartitionProof ConsistentProof.
 Local Open Scope Z_scope.
 
 Theorem C07_every_optimum_respects : forall K U P c,
@@ -43,3 +43,23 @@ Theorem C07_parfront_every_optimum : forall K U P0,
       forall x y, In x U -> In y U -> bucket_id P x < bucket_id P y -> bucket_id c x < bucket_id c y.
 Proof. exact parfront_every_optimum. Qed.
 Print Assumptions C07_parfront_every_optimum.
+
+(** consistent_with: never hangs, and says True exactly when the element counts agree and every element of an
+    earlier group is strictly before every element of a later group in the consensus *)
+Theorem C07_consistent_with_total : forall P c a b, consistent_with P c a b <> CWHang.
+Proof. exact consistent_with_terminates. Qed.
+Print Assumptions C07_consistent_with_total.
+
+Theorem C07_consistent_with_iff : forall P c nc np,
+  NoDup (elems P) -> NoDup (elems c) -> Permutation (elems P) (elems c) ->
+  (consistent_with P c nc np = CW true <->
+   nc = np /\ forall x y, In x (elems P) -> In y (elems P) -> bucket_id P x < bucket_id P y -> bucket_id c x < bucket_id c y).
+Proof. exact consistent_with_iff. Qed.
+Print Assumptions C07_consistent_with_iff.
+
+Theorem C07_consistent_with_false_iff : forall P c nc np,
+  NoDup (elems P) -> NoDup (elems c) -> Permutation (elems P) (elems c) ->
+  (consistent_with P c nc np = CW false <->
+   ~ (nc = np /\ forall x y, In x (elems P) -> In y (elems P) -> bucket_id P x < bucket_id P y -> bucket_id c x < bucket_id c y)).
+Proof. exact consistent_with_false_iff. Qed.
+Print Assumptions C07_consistent_with_false_iff.
